@@ -85,7 +85,7 @@ func typedefResolverAgreement(ctx *core.Ctx, cc *CC, rule string) {
 // parameter (siblings IsStruct / IsUnion do; a sibling that does not gives a
 // typedef of such a declaration no kind at all).
 func c11TypePredicates(ctx *core.Ctx, cc *CC) {
-	ctx.Rule("C11.R9", "typedef-resolution siblings: every exported func(*Type) bool predicate of the model that consults the declaration lists resolves its argument with UnderlyingType first", 2)
+	ctx.Rule("C11.R9", "typedef-resolution siblings: every func(*Type) bool predicate of the model that consults the declaration lists resolves its argument with UnderlyingType first (or consults the typedefs itself)", 2)
 	pp := cc.Pkg("parser")
 	ut := cc.FnOpt("parser", "(*Frugal).UnderlyingType")
 	if pp == nil || ut == nil {
@@ -94,7 +94,7 @@ func c11TypePredicates(ctx *core.Ctx, cc *CC) {
 	}
 	var preds []*ssa.Function
 	for _, fn := range cc.Fns {
-		if fn.Pkg != pp || fn.Signature.Recv() == nil || !ssax.TypeNamed(fn.Signature.Recv().Type(), "", "Frugal") || !token.IsExported(fn.Name()) {
+		if fn.Pkg != pp || fn.Signature.Recv() == nil || !ssax.TypeNamed(fn.Signature.Recv().Type(), "", "Frugal") {
 			continue
 		}
 		sig := fn.Signature
@@ -127,6 +127,15 @@ func c11TypePredicates(ctx *core.Ctx, cc *CC) {
 				resolves = true
 			}
 		}
+		// … or it treats aliases itself: it consults the typedefs next to the other
+		// declaration lists (isValidType: "is this name declared at all")
+		ssax.Instrs(fn, func(in ssa.Instruction) {
+			if fa, ok := in.(*ssa.FieldAddr); ok && ssax.TypeNamed(fa.X.Type(), "", "Frugal") {
+				if n := fieldName(fa); n == "Typedefs" || n == "typedefIndex" {
+					resolves = true
+				}
+			}
+		})
 		ctx.Check(resolves, "C11.R9", QName(fn)+" › resolves typedefs before consulting "+strings.Join(uniq(lists), "/"), cc.FPos(fn), "t = f.UnderlyingType(t)",
 			"the predicate looks only at the name it is given while its siblings resolve typedefs: a typedef of such a declaration is neither a struct nor an enum for the generators (Java/Python getTType abort on valid IDL)")
 	}
